@@ -76,3 +76,13 @@ package codegen
 //@   mode bv
 //@   tags C12
 //@   order sort.Slice#1 [combined-samplers] key x :: x.samplerHandle
+
+// ---- namer (C16): the reserved-word test is made on the sanitised spelling --------------------
+//
+// The name that is emitted is the sanitised label (plus a suffix); testing the
+// raw label for being a keyword lets `in_` through as `in`.
+//
+//@ func (*namer).call
+//@   mode bv
+//@   tags C16
+//@   at isKeyword assert [on-sanitized] arg0 == escaped
